@@ -5,6 +5,7 @@ J=${1:-3}
 cd /verif
 one() {
   d=$1; kind=$2; id=$(basename $d); prop=${id%-*}
+  if grep -q '"obsolete": true' $d/meta.json 2>/dev/null; then echo "$kind $id: skipped (marked obsolete in its meta.json)"; return; fi
   if ! git -C /repo apply --check /verif/$d/patch.diff 2>/dev/null; then echo "$kind $id: skipped (patch does not apply to HEAD any more; see its meta.json)"; return; fi
   if [ $kind = seeded ]; then
     out=$(SEED_SKIP_TESTS=1 tools/seedtest.sh $d/patch.diff $d/demo.py $prop 2>&1)
